@@ -25,12 +25,20 @@ func init() {
 			"(4) spread: a domain enters validDomains / is returned only under count(+1 if self-selecting) − min ≤ maxSkew (hostname: min taken as 0); domainMinCount counts only domains the pod can use and forces min to 0 when those are fewer than minDomains; " +
 			"(5) anti-affinity: only domains with no matching pod are offered (count == 0 / member of emptyDomains); affinity: only domains with a matching pod, or a bootstrap domain when the pod selects itself and no compatible domain has a match — and always a domain the pod's own requirements allow; " +
 			"(6) relaxation and re-queueing refresh the topology (Update + updateCachedPodData) before the pod is tried again; inverse anti-affinities are seeded from every anti-affinity pod of the cluster that is not excluded; " +
-			"(7) what Record counted during the pass stays counted (countDomains, the only other source of counts, sees bound pods only): the group registries of a Topology (topologyGroups, inverseTopologyGroups) only grow — assigned under construction, entries inserted only where a lookup of the same hash has just missed, never deleted, cleared, replaced or handed to code that writes into them; domainGroups is not written once built; Scheduler / NodeClaim / ExistingNode get their *Topology at construction only; inside a group a count is only incremented or zero-initialised for an unknown domain, a domain is declared empty only where it was unknown, domains are dropped by TopologyGroup.Unregister alone (reached from Topology.Unregister alone, which no scheduling code calls), and no group is overwritten as a whole.",
+			"(7) what Record counted during the pass stays counted (countDomains, the only other source of counts, sees bound pods only): the group registries of a Topology (topologyGroups, inverseTopologyGroups) only grow — assigned under construction, entries inserted only where a lookup of the same hash has just missed, never deleted, cleared, replaced or handed to code that writes into them; domainGroups is not written once built; Scheduler / NodeClaim / ExistingNode get their *Topology at construction only; inside a group a count is only incremented or zero-initialised for an unknown domain, a domain is declared empty only where it was unknown, domains are dropped by TopologyGroup.Unregister alone (reached from Topology.Unregister alone, which no scheduling code calls), and no group is overwritten as a whole. " +
+			"(8) which groups govern a pod: AddOwner stores / IsOwnedBy reads the owners set; Topology.Update visits every spread and (anti-)affinity group built for the pod, makes the pod an owner of the registered group (the one found under the hash, or the new one after it was inserted) and succeeds only after the last one; a pod with required anti-affinity terms gets its inverse groups under either preference policy (a failed registration fails Update); per required term the inverse group is an anti-affinity group over the term's key / namespaces / selector, owned by the pod, with the running pod's node domain recorded whenever known; newForTopologies yields a group for every DoNotSchedule constraint (key, selector, maxSkew, minDomains, inclusion policies, the pod's namespace) and visits all constraints; newForAffinities collects the required affinity terms as affinity and the required anti-affinity terms as anti-affinity groups and builds one group per collected term; " +
+			"(9) what a group counts: Counts ⇒ selects ∧ nodeFilter.Matches; only spread groups get a node filter, whose policies default to Ignore (taints) / Honor (affinity) only when unset; the filter excludes a node only under a Honor policy (the zero filter never does); the group's selector is the term's parsed selector (Nothing only on a parse error) and its fields are the constructor's arguments; countDomains collects the pods of every namespace, visits every one and records it unless it is ignored-for-topology, excluded, on a vanished node, on a node without the domain, or filtered out; " +
+			"(10) spread arithmetic: the bare count reaches the skew test only for a pod the constraint does not select (self counts +1, all three sites); domainMinCount returns a running minimum that starts at MaxInt32, is lowered exactly when a usable domain's count is smaller, and consults minDomains whenever it is set; an In answer of nextDomainTopologySpread names a domain that passed the skew test (no candidate ⇒ DoesNotExist); AddRequirements passes the pod's own requirement for the key as podDomains whenever the pod has one; " +
+			"(11) admission is binding: both tryVolumeAlternative succeed only if AddRequirements succeeded and the node's / claim's requirements are Compatible with its answer, which is merged into the returned set; CanAdd returns that set; NodeClaim.Add stores it as the claim's requirements; addToNewNodeClaim commits the set CanAdd computed for the very claim it adds; NewNodeClaim pins the claim to a hostname domain of its own (the one Add registers); " +
+			"(12) the cluster's anti-affinity index: a pod with required anti-affinity is stored under its key and deleted only when it has none (or by DeletePod / Reset); ForPodsWithAntiAffinity ranges over the index, hands the pod and its Node to the callback, skips only unbound pods / unknown Nodes and stops only when the callback says so; " +
+			"(13) group identity: the selector's matchLabels are part of the hash (left out only for a nil selector).",
 		NotCovered: []string{
-			"that domain counts are right (seeding from the API, exclusion, inclusion policies, matchLabelKeys) — value-level",
+			"that domain counts are right beyond the structure decided in (9): the domain universe (buildDomainGroups, TopologyDomainGroup, domains discovered from state nodes), the node cache and domain resolution inside countDomains, IgnoredForTopology, matchLabelKeys, buildNamespaceList, TopologyNodeFilter.matchesRequirements — value-level",
+			"errors of the API swallowed while the topology is built (updateInverseAffinities collects them, NewTopology returns them — not decided)",
+			"an error check merged with another through one error variable (`if err == nil { err = Compatible(…) }; if err != nil`) is read as a possibly skipped check by C02.ADM1/ADM2 (engine limitation shared with C01.MPT2/MPT4)",
 			"'for every domain the node could end up in' when requirements have not collapsed to one domain",
 			"queue-order and relaxation-order effects between pods of a batch",
-			"TopologyNodeFilter.Matches and label-selector semantics",
+			"label-selector semantics; which requirement sets a TopologyNodeFilter holds beyond C02.PROV5",
 			"ownership bookkeeping of a group (TopologyGroup.owners: which pods RemoveOwner / AddOwner touch) and writes to a group's other fields; aliasing of the registries through values the checker does not follow (a map stored into another struct field, returned from a function, or passed through an interface)",
 		},
 		Rules: c02Rules,
@@ -45,7 +53,423 @@ func c02Rules(tier string) []Rule {
 		core.Custom{ID: "C02.WMC1", Kind: "WMC", Run: c02RegistryGrowOnly},
 		core.Custom{ID: "C02.WMC2", Kind: "WMC", Run: c02GroupCountsKept})
 	rules = append(rules, POST{ID: "C02.AAIDX1", Fn: "(*state.Cluster).UpdatePod", From: "", Must: []string{`^call \(\*state\.Cluster\)\.updatePodAntiAffinities\(\$0, \$2\)$`}, Note: "every path through UpdatePod updates the anti-affinity index"})
+	// (8)–(13): triage of the mutation sweep
+	rules = append(rules, c02SweepRules()...)
+	rules = append(rules, topologyAdmissionRules("C02")...)
 	return rules
+}
+
+// c02SweepRules: the clauses added while triaging the single-site mutation sweep of C02's anchor files (numbers as in the
+// table's Explanation; (11) — admission is binding — is the shared builder topologyAdmissionRules plus C02.HOST1).
+//
+//	(8)  which groups govern a pod: Update builds a group for every DoNotSchedule spread constraint and every required
+//	     (anti-)affinity term, registers-or-finds each and makes the pod an owner; a pod with required anti-affinity gets
+//	     its inverse groups; ownership is what AddOwner stores and IsOwnedBy reads.
+//	(9)  what a group counts: Counts ⇒ selects ∧ nodeFilter.Matches; only spread groups get a node filter, the zero filter
+//	     matches every node; countDomains visits every listed pod and records it unless one of the documented reasons
+//	     applies; inverse groups record the domain of the running pod they come from.
+//	(10) spread arithmetic: a self-selecting pod is counted in (+1) before the skew test; the global minimum is a running
+//	     minimum over the domains the pod can use; minDomains is consulted whenever it is set; no valid domain ⇒ an empty
+//	     answer.
+//	(12) the anti-affinity index of the cluster state feeds every bound pod with required anti-affinity to the pass.
+//	(13) group identity: the selector's matchLabels are part of the hash.
+func c02SweepRules() []Rule {
+	const (
+		tp      = "(*sched.Topology)."
+		tg      = "(*sched.TopologyGroup)."
+		updLoop = `\(phi\(-1\|\(phi↺ \+ 1\)\) \+ 1\) < len\(append\(\(\*sched\.Topology\)\.newForTopologies\(\$0, \$2\), \(\*sched\.Topology\)\.newForAffinities\(\$0, \$2\)#0\)\)`
+		invLoop = `\(phi\(-1\|\(phi↺ \+ 1\)\) \+ 1\) < len\(\$2\.Spec\.Affinity\.PodAntiAffinity\.RequiredDuringSchedulingIgnoredDuringExecution\)`
+		tscLoop = `\(phi\(-1\|\(phi↺ \+ 1\)\) \+ 1\) < len\(\$1\.Spec\.TopologySpreadConstraints\)`
+		podLoop = `\(phi\(-1\|\(phi↺ \+ 1\)\) \+ 1\) < len\(append\(.*&local<corev1\.PodList>\.Items\)\)`
+		nsLoop  = `\(phi\(-1\|\(phi↺ \+ 1\)\) \+ 1\) < len\(\(apim/util/sets\.Set\[string\]\)\.UnsortedList\(\$2\.namespaces\)\)`
+		terms   = `makemap<map\[sched\.TopologyType\]\[\]corev1\.PodAffinityTerm>`
+		hasReq  = `-^utils/pod\.HasRequiredPodAntiAffinity\(\$2\)$`
+		hasAny  = `-^utils/pod\.HasPodAntiAffinity\(\$2\)$`
+		invOK   = `+^\(\*sched\.Topology\)\.updateInverseAntiAffinity\(\$0, \$2, nil\) == nil$`
+		selfSel = `-^\(\*sched\.TopologyGroup\)\.selects\(\$0, \$1\)$`
+	)
+	return []Rule{
+		// ---- (8) which groups govern a pod
+		core.Custom{ID: "C02.OWN1", Kind: "PROV", Run: func(w *core.World, id string) []core.Result {
+			rs := core.InstrPresent(w, id, "PROV", tg+"AddOwner", `^mapupdate \$0\.owners\[\$1\] = `, 1, "AddOwner enters the pod into the group's owners")
+			rs = append(rs, core.InstrPresent(w, id, "PROV", tg+"IsOwnedBy", `^return \$0\.owners\[\$1\]#1$`, 1, "IsOwnedBy answers from the same set")...)
+			return rs
+		}},
+		ITER{ID: "C02.OWN2", Fn: tp + "Update", Loop: `+^` + updLoop + `$`, Gates: gates(
+			G(`instr:^call \(\*sched\.TopologyGroup\)\.AddOwner\(.*, \$2\.ObjectMeta\.UID\)$`),
+		), Note: "every spread / affinity group built for the pod gets the pod as an owner"},
+		MPT{ID: "C02.OWN3", Fn: tp + "Update", Ret: core.RetOK, Gates: gates(
+			G(`-^` + updLoop + `$`),
+		), Note: "Update succeeds only after every group built for the pod (spread groups and affinity groups) has been visited"},
+		core.Custom{ID: "C02.OWN4", Kind: "PROV", Run: func(w *core.World, id string) []core.Result {
+			return c02ActsOnRegistered(w, id, tp+"Update", "topologyGroups", `^call \(\*sched\.TopologyGroup\)\.AddOwner\(`, 1,
+				"the group the pod comes to own is the registered one: the group found under the hash, or the freshly built one after it was entered into topologyGroups")
+		}},
+		MPT{ID: "C02.OWN5", Fn: tp + "Update", Ret: core.RetOK, Gates: gates(
+			G(invOK, hasReq, hasAny, `-^\$0\.preferencePolicy == 1$`),
+			G(invOK, hasReq, hasAny, `-^\$0\.preferencePolicy == 0$`),
+		), Note: "a pod with required anti-affinity terms gets its inverse groups (under either preference policy) before Update succeeds"},
+		core.Custom{ID: "C02.OWN5c", Kind: "REG", Run: func(w *core.World, id string) []core.Result {
+			rs := core.ConstIs(w, id, "controllers/provisioning/scheduling", "PreferencePolicyIgnore", "1", "PreferencePolicyIgnore (the literals of C02.OWN5 / C02.GRP1 are written with its value)")
+			return append(rs, core.ConstIs(w, id, "controllers/provisioning/scheduling", "PreferencePolicyRespect", "0", "PreferencePolicyRespect")...)
+		}},
+		ITER{ID: "C02.OWN6", Fn: tp + "updateInverseAntiAffinity", Loop: `+^` + invLoop + `$`, Gates: gates(
+			G(`instr:^call \(\*sched\.TopologyGroup\)\.AddOwner\(.*, \$2\.ObjectMeta\.UID\)$`),
+			G(`instr:^call \(\*sched\.TopologyGroup\)\.Record\(.*, &local<\[1\]string>\[:\]\)$`, `-^\$3\[.*\.Key\]#1$`),
+		), Note: "every required anti-affinity term: the pod owns the inverse group, and the domain of the node it runs on is counted whenever it is known"},
+		MPT{ID: "C02.OWN7", Fn: tp + "updateInverseAntiAffinity", Ret: core.RetOK, Gates: gates(G(`-^` + invLoop + `$`)), Note: "success only after every required term"},
+		core.Custom{ID: "C02.OWN8", Kind: "PROV", Run: func(w *core.World, id string) []core.Result {
+			f := tp + "updateInverseAntiAffinity"
+			rs := core.InstrPresent(w, id, "PROV", f, `^call sched\.NewTopologyGroup\(2, \$2\.Spec\.Affinity\.PodAntiAffinity\.RequiredDuringSchedulingIgnoredDuringExecution\[.*\]\.TopologyKey, \$2, \(\*sched\.Topology\)\.buildNamespaceList\(.*\)#0, \$2\.Spec\.Affinity\.PodAntiAffinity\.RequiredDuringSchedulingIgnoredDuringExecution\[.*\]\.LabelSelector, 2147483647, nil, nil, nil, `, 1, "an inverse group is an anti-affinity group over the term's key, namespaces and selector")
+			rs = append(rs, core.InstrPresent(w, id, "PROV", f, `^store &local<\[1\]string>\[0\] = \$3\[.*\.Key\]#0$`, 1, "the domain recorded is the node's label value for the group's key")...)
+			return rs
+		}},
+		core.Custom{ID: "C02.OWN9", Kind: "PROV", Run: func(w *core.World, id string) []core.Result {
+			return c02ActsOnRegistered(w, id, tp+"updateInverseAntiAffinity", "inverseTopologyGroups", `^call \(\*sched\.TopologyGroup\)\.(AddOwner|Record)\(`, 2,
+				"the inverse group recorded into and owned is the registered one")
+		}},
+
+		// spread constraints → groups
+		ITER{ID: "C02.GRP1", Fn: tp + "newForTopologies", Loop: `+^` + tscLoop + `$`, Gates: gates(
+			G(`instr:^call append\(phi\(.*\), &local<\[1\]\*sched\.TopologyGroup>\[:\]\)$`, `-^\$1\.Spec\.TopologySpreadConstraints\[.*\]\.WhenUnsatisfiable == "DoNotSchedule"$`, `+^\$1\.Spec\.TopologySpreadConstraints\[.*\]\.WhenUnsatisfiable == "ScheduleAnyway"$`),
+		), Note: "every DoNotSchedule constraint yields a group (only ScheduleAnyway ones may be skipped)"},
+		MPT{ID: "C02.GRP2", Fn: tp + "newForTopologies", Ret: core.RetAny, Gates: gates(G(`-^` + tscLoop + `$`)), Note: "…and every constraint is visited"},
+		core.Custom{ID: "C02.GRP3", Kind: "PROV", Run: func(w *core.World, id string) []core.Result {
+			f := tp + "newForTopologies"
+			c := `\$1\.Spec\.TopologySpreadConstraints\[.*\]`
+			rs := core.InstrPresent(w, id, "PROV", f, `^store &local<\[1\]\*sched\.TopologyGroup>\[0\] = sched\.NewTopologyGroup\(0, `+c+`\.TopologyKey, \$1, apim/util/sets\.New\[string\]\(&local<\[1\]string>\[:\]\), `+c+`\.LabelSelector, `+c+`\.MaxSkew, `+c+`\.MinDomains, `+c+`\.NodeTaintsPolicy, `+c+`\.NodeAffinityPolicy, \$0\.domainGroups\[`+c+`\.TopologyKey\]\)$`, 1, "the group carries the constraint's key, selector, maxSkew, minDomains and inclusion policies")
+			rs = append(rs, core.InstrPresent(w, id, "PROV", f, `^store &local<\[1\]string>\[0\] = \$1\.ObjectMeta\.Namespace$`, 1, "a spread group counts the pod's own namespace")...)
+			rs = append(rs, core.InstrPresent(w, id, "PROV", f, `^return phi\(nil\|phi↺\|append\(phi↺, &local<\[1\]\*sched\.TopologyGroup>\[:\]\)\)$`, 1, "the accumulated list is returned")...)
+			return rs
+		}},
+		// (anti-)affinity terms → groups
+		POST{ID: "C02.GRP4", Fn: tp + "newForAffinities", FromLit: `-^\$2\.Spec\.Affinity\.PodAffinity == nil$`,
+			Must: []string{`^mapupdate ` + terms + `\[1\] = append\(` + terms + `\[1\], \$2\.Spec\.Affinity\.PodAffinity\.RequiredDuringSchedulingIgnoredDuringExecution\)$`}, Note: "required pod-affinity terms become affinity groups"},
+		POST{ID: "C02.GRP5", Fn: tp + "newForAffinities", FromLit: `-^\$2\.Spec\.Affinity\.PodAntiAffinity == nil$`,
+			Must: []string{`^mapupdate ` + terms + `\[2\] = append\(` + terms + `\[2\], \$2\.Spec\.Affinity\.PodAntiAffinity\.RequiredDuringSchedulingIgnoredDuringExecution\)$`}, Note: "required pod-anti-affinity terms become anti-affinity groups"},
+		ITER{ID: "C02.GRP6", Fn: tp + "newForAffinities", Loop: `+^\(phi\(-1\|\(phi↺ \+ 1\)\) \+ 1\) < len\(next\(range\(` + terms + `\)\)#2\)$`, Gates: gates(
+			G(`instr:^call append\(phi\(.*\), &local<\[1\]\*sched\.TopologyGroup>\[:\]\)$`),
+		), Note: "every collected term yields a group"},
+		ITER{ID: "C02.GRP7", Fn: tp + "newForAffinities", Loop: `+^next\(range\(` + terms + `\)\)#0$`, Gates: gates(
+			G(`-^\(phi\(-1\|\(phi↺ \+ 1\)\) \+ 1\) < len\(next\(range\(` + terms + `\)\)#2\)$`),
+		), Note: "every term of a type is visited"},
+		MPT{ID: "C02.GRP8", Fn: tp + "newForAffinities", Ret: core.RetOK, Gates: gates(
+			G(`-^next\(range\(`+terms+`\)\)#0$`, `+^\$2\.Spec\.Affinity == nil$`),
+		), Note: "success only after every type of term was visited (or the pod has no affinity)"},
+		core.Custom{ID: "C02.GRP9", Kind: "PROV", Run: func(w *core.World, id string) []core.Result {
+			f := tp + "newForAffinities"
+			t := `next\(range\(.*\)\)#2\[.*\]`
+			rs := core.InstrPresent(w, id, "PROV", f, `^store &local<\[1\]\*sched\.TopologyGroup>\[0\] = sched\.NewTopologyGroup\(next\(range\(.*\)\)#1, `+t+`\.TopologyKey, \$2, \(\*sched\.Topology\)\.buildNamespaceList\(.*\)#0, `+t+`\.LabelSelector, 2147483647, nil, nil, nil, `, 1, "the group has the type its term was collected under, the term's key, namespaces and selector")
+			rs = append(rs, core.InstrPresent(w, id, "PROV", f, `^return phi\(nil\|phi\(phi↺\|append\(.*\)\)\), nil$`, 1, "the accumulated list is returned")...)
+			return rs
+		}},
+
+		// ---- (9) what a group counts
+		MPT{ID: "C02.CNT1", Fn: tg + "Counts", Ret: core.RetTrue, Gates: gates(
+			G(`+^\(\*sched\.TopologyGroup\)\.selects\(\$0, \$1\)$`),
+			G(`+^\(sched\.TopologyNodeFilter\)\.Matches\(\$0\.nodeFilter, \$2, \$3, \$4\)$`),
+		), Note: "a pod counts ⇒ the group selects it and the node passes the group's node filter"},
+		DOM{ID: "C02.CNT2", Fn: "sched.NewTopologyGroup", Sink: `^call sched\.MakeTopologyNodeFilter\(`, Gates: gates(G(`+^\$0 == 0$`)),
+			Note: "only spread groups filter nodes: affinity and anti-affinity count matching pods on every node"},
+		phiRule{ID: "C02.CNT3", Fn: "(sched.TopologyNodeFilter).Matches", Phi: `^phi\(true\|\(sched\.TopologyNodeFilter\)\.matchesRequirements\(`, Edge: `^\(sched\.TopologyNodeFilter\)\.matchesRequirements\(`, Gate: G(`+^\$0\.AffinityPolicy == "Honor"$`), Min: 1,
+			What: "node affinity excludes a node only under nodeAffinityPolicy Honor — the zero filter of affinity / anti-affinity groups never does"},
+		phiRule{ID: "C02.CNT3b", Fn: "(sched.TopologyNodeFilter).Matches", Phi: `^phi\(false\|true\)$`, Edge: `^false$`, Gate: G(`+^\$0\.TaintPolicy == "Honor"$`), Min: 1,
+			What: "taints exclude a node only under nodeTaintsPolicy Honor"},
+		MPT{ID: "C02.CNT3c", Fn: "(sched.TopologyNodeFilter).Matches", Ret: core.RetFalse, Gates: gates(
+			G(`-^phi\(true\|\(sched\.TopologyNodeFilter\)\.matchesRequirements\(.*\)$`, `-^phi\(false\|true\)$`),
+		), Note: "Matches answers false only when one of the two tests failed"},
+		phiRule{ID: "C02.CNT4", Fn: "sched.NewTopologyGroup", Phi: `^phi\(apim/labels\.Nothing\(\)\|metav1\.LabelSelectorAsSelector\(\$4\)#0\)$`, Edge: `^apim/labels\.Nothing\(\)$`, Gate: G(`-^metav1\.LabelSelectorAsSelector\(\$4\)#1 == nil$`), Min: 1,
+			What: "the group selects with the term's own selector; 'nothing' only replaces a selector that does not parse"},
+		core.Custom{ID: "C02.CNT5", Kind: "PROV", Run: func(w *core.World, id string) []core.Result {
+			const f = "sched.NewTopologyGroup"
+			var rs []core.Result
+			for _, fs := range [][2]string{{"Type", `\$0`}, {"Key", `\$1`}, {"namespaces", `\$3`}, {"selector", `phi\(apim/labels\.Nothing\(\)\|metav1\.LabelSelectorAsSelector\(\$4\)#0\)`}, {"rawSelector", `\$4`},
+				{"maxSkew", `\$5`}, {"minDomains", `\$6`}, {"nodeFilter", `sched\.MakeTopologyNodeFilter\(\$2, phi\("Ignore"\|\$7\), phi\("Honor"\|\$8\)\)`}} {
+				rs = append(rs, core.InstrPresent(w, id, "PROV", f, `^store &local<sched\.TopologyGroup>\.`+fs[0]+` = `+fs[1]+`$`, 1, "TopologyGroup."+fs[0]+" is what the caller asked for")...)
+			}
+			return rs
+		}},
+		phiRule{ID: "C02.CNT6", Fn: "sched.NewTopologyGroup", Phi: `^phi\("Ignore"\|\$7\)$`, Edge: `^"Ignore"$`, Gate: G(`+^\$7 == nil$`), Min: 1, What: "nodeTaintsPolicy defaults to Ignore only when the constraint does not set it"},
+		phiRule{ID: "C02.CNT7", Fn: "sched.NewTopologyGroup", Phi: `^phi\("Honor"\|\$8\)$`, Edge: `^"Honor"$`, Gate: G(`+^\$8 == nil$`), Min: 1, What: "nodeAffinityPolicy defaults to Honor only when the constraint does not set it"},
+		// seeding from the API
+		ITER{ID: "C02.SEED1", Fn: tp + "countDomains", Loop: `+^` + nsLoop + `$`, Gates: gates(
+			G(`instr:^store .* = append\(.*&local<corev1\.PodList>\.Items\)$`),
+		), Note: "the pods listed in every namespace of the group are collected"},
+		ITER{ID: "C02.SEED2", Fn: tp + "countDomains", Loop: `+^` + podLoop + `$`, Gates: gates(
+			G(`instr:^call \(\*sched\.TopologyGroup\)\.Record\(\$2, &local<\[1\]string>\[:\]\)$`,
+				`+^sched\.IgnoredForTopology\(`, `+^\(apim/util/sets\.Set\[string\]\)\.Has\(\$0\.excludedPods, `, `+^apim/api/errors\.IsNotFound\(`,
+				`-^phi\(true\|.*\.ObjectMeta\.Labels\[\$2\.Key\]#1\)$`, `-^\(sched\.TopologyNodeFilter\)\.Matches\(\$2\.nodeFilter, `),
+		), Note: "a listed pod is counted unless it is unscheduled/terminal, excluded, its node is gone, the node has no such domain, or the node filter excludes the node"},
+		MPT{ID: "C02.SEED3", Fn: tp + "countDomains", Ret: core.RetOK, Gates: gates(G(`-^`+podLoop+`$`), G(`-^`+nsLoop+`$`)), Note: "success only after every namespace was listed and every listed pod was visited"},
+
+		// ---- (10) spread arithmetic
+		phiRule{ID: "C02.SKEW1", Fn: tg + "nextDomainTopologySpread", Phi: `^phi\(\$0\.domains\[.*\](#0)?\|\(\$0\.domains\[.*\](#0)? \+ 1\)\)$`, Edge: `^\$0\.domains\[.*\](#0)?$`, Gate: G(selfSel), Min: 3,
+			What: "a pod the constraint selects is counted in before the skew test (count + 1); the bare count is used only for a pod that does not select itself"},
+		core.Custom{ID: "C02.SKEW2", Kind: "PROV", Run: c02RunningMin},
+		MPT{ID: "C02.SKEW3", Fn: tg + "nextDomainTopologySpread", Ret: core.RetSpec{Index: 0, Want: "any", Also: `^return scheduling\.NewRequirement\(\$0\.Key, "In", &local<\[1\]string>\[:\]\), `}, Min: 2, Gates: gates(
+			G(`-^phi\(.*\) == ""$`, `-^\$0\.maxSkew < phi\(\$0\.domains\[`),
+		), Note: "an In answer names a domain that passed the skew test: no valid domain ⇒ the empty (DoesNotExist) answer, which AddRequirements turns into an error"},
+		phiRule{ID: "C02.SKEW4", Fn: tp + "AddRequirements", Phi: `^phi\(\(scheduling\.Requirements\)\.Get\(\$3, .*\)\|scheduling\.NewRequirement\(.*"Exists", nil\)\)$`, Edge: `^scheduling\.NewRequirement\(`, Gate: G(`-^\(scheduling\.Requirements\)\.Has\(\$3, `), Min: 1,
+			What: "the pod's domains are its own requirement for the key whenever it has one ('any domain' only for a pod without one): minDomains and the bootstrap test count the domains the pod can use"},
+
+		// ---- (12) the anti-affinity index
+		POST{ID: "C02.AAIDX2", Fn: "(*state.Cluster).updatePodAntiAffinities", FromLit: `+^utils/pod\.HasRequiredPodAntiAffinity\(\$1\)$`,
+			Must: []string{`^call \(\*sync\.Map\)\.Store\(\$0\.antiAffinityPods, <cr/client\.ObjectKey>cr/client\.ObjectKeyFromObject\(<\*corev1\.Pod>\$1\), <\*corev1\.Pod>\$1\)$`}, Note: "a pod with required anti-affinity terms is indexed under its own key"},
+		DOM{ID: "C02.AAIDX3", Fn: "(*state.Cluster).updatePodAntiAffinities", Sink: `^call \(\*sync\.Map\)\.Delete\(\$0\.antiAffinityPods, `, Gates: gates(G(`-^utils/pod\.HasRequiredPodAntiAffinity\(\$1\)$`)), Note: "…and dropped from the index only when it has none"},
+		core.Custom{ID: "C02.AAIDX4", Kind: "PROV", Run: func(w *core.World, id string) []core.Result {
+			const f = "(*state.Cluster).ForPodsWithAntiAffinity"
+			rs := core.InstrPresent(w, id, "PROV", f, `^call \(\*sync\.Map\)\.Range\(\$0\.antiAffinityPods, closure:`, 1, "the walk ranges over the anti-affinity index")
+			rs = append(rs, core.InstrPresent(w, id, "PROV", f, `^call dyn:\^\$1\(\$1\.\(\*corev1\.Pod\), \^\$0\.nodes\[\^\$0\.nodeNameToProviderID\[\^\$0\.bindings\[cr/client\.ObjectKeyFromObject\(.*\)\]#0\]\]#0\.Node\)$`, 1, "the callback gets the indexed pod and the Node it is bound to")...)
+			rs = append(rs, core.InstrAbsent(w, id, "PROV", f, `^store &local<bool> = false$|^return false$`, "the walk stops only when the callback says so")...)
+			return rs
+		}},
+		DOM{ID: "C02.AAIDX5", Fn: "(*state.Cluster).ForPodsWithAntiAffinity", Sink: `^store &local<bool> = true$|^return true$`, Min: 2, Gates: gates(
+			G(`-^\^\$0\.bindings\[.*\]#1$`, `-^\^\$0\.nodes\[.*\]#1$`, `+^\^\$0\.nodes\[.*\]#0\.Node == nil$`),
+		), Note: "an indexed pod is skipped only when it has no binding or its Node is not in the cluster state"},
+		WMC{ID: "C02.AAIDX6", Sink: `^(call|go|defer) \(\*sync\.Map\)\.(Delete|Clear|LoadAndDelete|CompareAndDelete|Swap|CompareAndSwap)\(.*\.antiAffinityPods, |^store .*\.antiAffinityPods = `,
+			Allowed: []string{"(*state.Cluster).updatePodAntiAffinities", "(*state.Cluster).DeletePod", "(*state.Cluster).Reset"}, Required: []string{"(*state.Cluster).DeletePod"}},
+
+		// a new claim is a hostname domain of its own — the one Add registers and the single-host special cases look up
+		core.Custom{ID: "C02.HOST1", Kind: "PROV", Run: func(w *core.World, id string) []core.Result {
+			const f = "sched.NewNodeClaim"
+			rs := core.InstrPresent(w, id, "PROV", f, `^store &local<\[1\]string>\[0\] = fmt\.Sprintf\(`, 1, "the hostname requirement names the claim's generated hostname")
+			rs = append(rs, core.InstrPresent(w, id, "PROV", f, `^store &local<\[1\]\*scheduling\.Requirement>\[0\] = scheduling\.NewRequirement\("kubernetes\.io/hostname", "In", &local<\[1\]string>\[:\]\)$`, 1, "the claim is pinned to kubernetes.io/hostname In [its hostname]")...)
+			rs = append(rs, core.InstrPresent(w, id, "PROV", f, `^call \(scheduling\.Requirements\)\.Add\(.*Requirements, &local<\[1\]\*scheduling\.Requirement>\[:\]\)$`, 1, "…in the requirements of the claim")...)
+			rs = append(rs, core.InstrPresent(w, id, "PROV", f, `^store &local<sched\.NodeClaim>\.hostname = fmt\.Sprintf\(`, 1, "the hostname Add registers is that same hostname")...)
+			return rs
+		}},
+
+		// ---- (13) group identity
+		core.Custom{ID: "C02.HASH1", Kind: "PROV", Run: func(w *core.World, id string) []core.Result {
+			const f = "sched.hashSelector"
+			rs := core.InstrPresent(w, id, "PROV", f, `^call github\.com/mitchellh/hashstructure/v2\.Hash\(<map\[string\]string>\$0\.MatchLabels, `, 1, "the selector's matchLabels are hashed")
+			rs = append(rs, core.InstrPresent(w, id, "PROV", f, `^store &local<\[2\]any>\[1\] = phi\(0\|lo\.Must\[uint64\]\(github\.com/mitchellh/hashstructure/v2\.Hash\(<map\[string\]string>`, 1, "…and that hash is the second component of what is hashed")...)
+			return rs
+		}},
+		phiRule{ID: "C02.HASH2", Fn: "sched.hashSelector", Phi: `^phi\(0\|lo\.Must\[uint64\]\(`, Edge: `^0$`, Gate: G(`+^\$0 == nil$`), Min: 1, What: "the matchLabels hash is left out only for a nil selector: groups with different selectors never share a hash slot"},
+	}
+}
+
+// c02ActsOnRegistered: every call matching callRe in fn acts on a group that is in the registry `field` of the Topology:
+// its receiver is what a lookup of that map answered, or a value that reaches the call only after a write into that map
+// (the freshly built group after it was registered); a phi is read operand by operand.
+func c02ActsOnRegistered(w *core.World, id, fnName, field, callRe string, min int, what string) []core.Result {
+	fn := w.Fn(fnName)
+	if fn == nil {
+		return []core.Result{core.Anchor(id, "PROV", fnName)}
+	}
+	construct := "PROV:" + fnName + "▸" + callRe + "#recv∈" + field
+	sites := w.Sites(fn, regexp.MustCompile(callRe), true)
+	if len(sites) < min {
+		return []core.Result{core.Bad(id, "PROV", construct, w.Pos(fn.Pos()), fmt.Sprintf("vacuous: %d call(s) matching `%s` in %s, %d confirmed by hand", len(sites), callRe, fnName, min))}
+	}
+	found := regexp.MustCompile(`^\$0\.` + regexp.QuoteMeta(field) + `\[.*\]#0$`)
+	inserted := G(`instr:^mapupdate \$0\.` + regexp.QuoteMeta(field) + `\[`)
+	var out []core.Result
+	for _, s := range sites {
+		ci, ok := s.(ssa.CallInstruction)
+		if !ok {
+			continue
+		}
+		args := core.CallArgs(ci.Common())
+		if len(args) == 0 {
+			continue
+		}
+		cut := w.GateCut(s.Parent(), inserted)
+		seen := map[*ssa.Phi]bool{}
+		var check func(v ssa.Value, viaPred, viaBlock *ssa.BasicBlock)
+		check = func(v ssa.Value, viaPred, viaBlock *ssa.BasicBlock) {
+			if phi, isPhi := v.(*ssa.Phi); isPhi {
+				if seen[phi] {
+					return
+				}
+				seen[phi] = true
+				for i, e := range phi.Edges {
+					check(e, phi.Block().Preds[i], phi.Block())
+				}
+				return
+			}
+			if found.MatchString(w.RenderD(v, 6)) {
+				return
+			}
+			reach := false
+			if viaPred != nil {
+				reach = core.EdgeReachable(viaPred, viaBlock, cut)
+			} else {
+				reach = core.InstrReachable(s, cut)
+			}
+			if reach {
+				out = append(out, core.Bad(id, "PROV", construct, w.InstrPos(s), fmt.Sprintf("%s: `%s` acts on `%s`, which is neither the group found in %s nor a group entered into it before", what, clipStr(w.RenderInstr(s), 70), clipStr(w.RenderD(v, 3), 70), field)))
+			}
+		}
+		check(args[0], nil, nil)
+	}
+	if len(out) == 0 {
+		out = append(out, core.OK(id, "PROV", construct, len(sites), what))
+	}
+	return out
+}
+
+// phiRule wraps phiEdgesUnder as a table row.
+type phiRule struct {
+	ID, Fn, Phi, Edge string
+	Gate              Gate
+	Min               int
+	What              string
+}
+
+func (r phiRule) RuleID() string { return r.ID }
+func (r phiRule) Check(w *core.World) []core.Result {
+	return phiEdgesUnder(w, r.ID, "PHI", r.Fn, r.Phi, r.Edge, r.Gate, r.Min, r.What)
+}
+
+// C02.SKEW2: domainMinCount returns a running minimum. The value that reaches the final return (outside the forced 0 and
+// the hostname 0) is a loop-carried variable that starts at MaxInt32 and is replaced by a domain's count only on the edge
+// on which that count compared smaller (< or ≤) than the variable, and only for a domain the pod can use; and minDomains
+// is consulted on every path on which it is set (the comparison is reached from every `minDomains != nil` edge and from
+// no other).
+func c02RunningMin(w *core.World, id string) []core.Result {
+	const fnName = "(*sched.TopologyGroup).domainMinCount"
+	fn := w.Fn(fnName)
+	if fn == nil {
+		return []core.Result{core.Anchor(id, "PROV", fnName)}
+	}
+	construct := "PROV:" + fnName + ":running-min"
+	var out []core.Result
+	// the loop-carried minimum: a phi with a MaxInt32 operand
+	var min *ssa.Phi
+	for _, b := range fn.Blocks {
+		for _, in := range b.Instrs {
+			phi, ok := in.(*ssa.Phi)
+			if !ok {
+				break
+			}
+			for _, e := range phi.Edges {
+				if c, isC := e.(*ssa.Const); isC && c.Value != nil && c.Value.ExactString() == "2147483647" {
+					min = phi
+				}
+			}
+		}
+	}
+	if min == nil {
+		return []core.Result{core.Bad(id, "PROV", construct, w.Pos(fn.Pos()), "the running minimum (a loop-carried value starting at MaxInt32) was not found (idiom not recognised)")}
+	}
+	usable := w.GateCut(fn, G(`+^\(\*scheduling\.Requirement\)\.Has\(\$1, next\(range\(\$0\.domains\)\)#1\)$`))
+	updates := 0
+	for i, e := range min.Edges {
+		switch x := e.(type) {
+		case *ssa.Const:
+			continue
+		case *ssa.Phi:
+			if x == min {
+				continue
+			}
+		}
+		if e == ssa.Value(min) {
+			continue
+		}
+		updates++
+		r := w.Render(e)
+		if !regexp.MustCompile(`^next\(range\(\$0\.domains\)\)#2$`).MatchString(r) {
+			out = append(out, core.Bad(id, "PROV", construct, w.InstrPos(min), "the running minimum is replaced by `"+clipStr(r, 60)+"`, not by the count of the domain being visited"))
+			continue
+		}
+		// the edge is taken only where count < min (or ≤) held: cutting the edges on which `count < min` / `-(min < count)` holds makes it unreachable
+		smaller := w.GateCut(fn, G(`+^next\(range\(\$0\.domains\)\)#2 < phi\(`, `-^phi\(.*\) < next\(range\(\$0\.domains\)\)#2$`))
+		if core.EdgeReachable(min.Block().Preds[i], min.Block(), smaller) {
+			out = append(out, core.Bad(id, "PROV", construct, w.InstrPos(min), "the running minimum is replaced by a domain's count on a path on which that count was not found smaller: the global minimum is overstated, and count − min ≤ maxSkew admits domains beyond the skew"))
+		}
+		if core.EdgeReachable(min.Block().Preds[i], min.Block(), usable) {
+			out = append(out, core.Bad(id, "PROV", construct, w.InstrPos(min), "the running minimum takes the count of a domain the pod's requirements do not allow"))
+		}
+	}
+	if updates == 0 {
+		out = append(out, core.Bad(id, "PROV", construct, w.InstrPos(min), "the running minimum is never lowered: it stays MaxInt32 and count − min ≤ maxSkew holds for every domain"))
+	}
+	// …and it IS lowered whenever a usable domain has a smaller count: an iteration that goes on to the next domain passed
+	// "not usable", "not smaller", or one of the lowering edges
+	if t, _, ok := w.BlockLits(min.Block()); ok && regexp.MustCompile(`^next\(range\(\$0\.domains\)\)#0$`).MatchString(t.Expr) && t.Pol {
+		c := w.GateCut(fn, G(`-^\(\*scheduling\.Requirement\)\.Has\(\$1, next\(range\(\$0\.domains\)\)#1\)$`, `-^next\(range\(\$0\.domains\)\)#2 < phi\(`, `+^phi\(.*\) < next\(range\(\$0\.domains\)\)#2$`))
+		for i, e := range min.Edges {
+			if _, isC := e.(*ssa.Const); isC || e == ssa.Value(min) {
+				continue
+			}
+			pred := min.Block().Preds[i]
+			for j, sc := range pred.Succs {
+				if sc == min.Block() {
+					c.Edges[core.EdgeKey{From: pred, Succ: j}] = true
+				}
+			}
+		}
+		if core.Reach([]*ssa.BasicBlock{min.Block().Succs[0]}, c)[min.Block()] {
+			out = append(out, core.Bad(id, "PROV", construct, w.InstrPos(min), "a usable domain with a smaller count can be passed over without lowering the running minimum: the global minimum is overstated"))
+		}
+	} else {
+		out = append(out, core.Bad(id, "PROV", construct, w.InstrPos(min), "the running minimum is not carried by the loop over the group's domains (idiom not recognised)"))
+	}
+	// what is returned after the loop is that minimum (or the forced 0)
+	returned := false
+	for _, b := range fn.Blocks {
+		if len(b.Instrs) == 0 {
+			continue
+		}
+		ret, ok := b.Instrs[len(b.Instrs)-1].(*ssa.Return)
+		if !ok || len(ret.Results) != 1 {
+			continue
+		}
+		switch x := ret.Results[0].(type) {
+		case *ssa.Phi:
+			for _, e := range x.Edges {
+				if e == ssa.Value(min) {
+					returned = true
+				}
+			}
+			if x == min {
+				returned = true
+			}
+		}
+	}
+	if !returned {
+		out = append(out, core.Bad(id, "PROV", construct, w.InstrPos(min), "the running minimum is not what domainMinCount returns"))
+	}
+	// minDomains: the comparison is reached exactly from the `minDomains != nil` edges
+	var cmp *ssa.BinOp
+	for _, b := range fn.Blocks {
+		for _, in := range b.Instrs {
+			if bo, ok := in.(*ssa.BinOp); ok && regexp.MustCompile(`\$0\.minDomains`).MatchString(w.Render(bo.Y)) && !regexp.MustCompile(`nil`).MatchString(w.Render(bo.Y)) {
+				if _, isPhi := bo.X.(*ssa.Phi); isPhi {
+					cmp = bo
+				}
+			}
+		}
+	}
+	if cmp == nil {
+		out = append(out, core.Bad(id, "PROV", construct, w.Pos(fn.Pos()), "the comparison of the usable-domain count with minDomains was not found"))
+	} else {
+		set := w.GateCut(fn, G(`-^\$0\.minDomains == nil$`))
+		if len(set.Edges) == 0 {
+			out = append(out, core.Bad(id, "PROV", construct, w.InstrPos(cmp), "no test of minDomains against nil found"))
+		} else if core.InstrReachable(cmp, set) {
+			out = append(out, core.Bad(id, "PROV", construct, w.InstrPos(cmp), "minDomains is compared on a path on which it was not found set"))
+		}
+		// from every `minDomains != nil` edge no return is reached without evaluating the comparison
+		skip := core.NewCut()
+		skip.Instrs[cmp.Block().Instrs[len(cmp.Block().Instrs)-1]] = true
+		for k := range set.Edges {
+			for b := range core.Reach([]*ssa.BasicBlock{k.From.Succs[k.Succ]}, skip) {
+				if b == cmp.Block() || len(b.Instrs) == 0 {
+					continue
+				}
+				if _, isRet := b.Instrs[len(b.Instrs)-1].(*ssa.Return); isRet {
+					out = append(out, core.Bad(id, "PROV", construct, w.InstrPos(cmp), "a set minDomains does not lead to the comparison with the number of usable domains: the global minimum is not forced to 0 when there are fewer domains than minDomains"))
+				}
+			}
+		}
+	}
+	if len(out) == 0 {
+		out = append(out, core.OK(id, "PROV", construct, updates, "running minimum over pod-usable domains, lowered only by a smaller count; minDomains consulted whenever set"))
+	}
+	return out
 }
 
 func c02RulesBase(tier string) []Rule {
